@@ -148,18 +148,21 @@ def norm(text):
     return "\n".join(("" if l.strip(" \t\r") == "" else l) for l in lines)
 
 
-def medium_eq(got, exp):
-    """same number of lines; every non-blank line has the same leading whitespace and the same non-whitespace content
-    (what the property states; whitespace inside a line is left open).  Used when a nested partial leaves its last line
-    unterminated, so that the next nested call's own indentation lands in the middle of a line."""
+def medium_eq(got, exp, W, first_only):
+    """what the property states and no more: same number of lines; every non-blank line of the partial's output starts
+    with W (with prevent_indent: the first one) and has the same non-whitespace content.  Used when a nested partial
+    leaves its last line unterminated: the next nested call's own indentation then lands in the middle of a line (or
+    after whitespace that is itself the unterminated line), so the amount of whitespace inside that line is left open."""
     g, e = got.split("\n"), exp.split("\n")
     if len(g) != len(e):
         return False
-    for a, b in zip(g, e):
+    for i, (a, b) in enumerate(zip(g, e)):
         if a.strip(" \t\r") == "" and b.strip(" \t\r") == "":
             continue
-        la, lb = a[:len(a) - len(a.lstrip(" \t"))], b[:len(b) - len(b.lstrip(" \t"))]
-        if la != lb or "".join(a.split()) != "".join(b.split()):
+        if "".join(a.split()) != "".join(b.split()):
+            return False
+        inside = 0 < i < len(g) - 1          # line 0 is the caller's 'a', the last the caller's 'b'
+        if inside and (not first_only or i == 1) and not a.startswith(W):
             return False
     return True
 
@@ -184,7 +187,7 @@ def oracle(case, meta, impl):
         exp += body
     exp += "b"
     got = main["out"]
-    if norm(got) == norm(exp) or (meta.get("glue") and medium_eq(got, exp)):
+    if norm(got) == norm(exp) or (meta.get("glue") and medium_eq(got, exp, W, meta["pi"])):
         # content and line count are unchanged by construction of the comparison
         return []
     return ["indentation: W=%r partial alone %r → expected %r got %r" % (W, [a["out"] for a in alone], exp, got)]
